@@ -1,4 +1,5 @@
 ---- MODULE PrintUniverses ----
-EXTENDS Universe
+EXTENDS Store
 ASSUME \A n \in UniverseNames : PrintT(<<"UNIVERSE", n, UniverseSeq(n)>>)
+ASSUME \A n \in StoreUniverses : \A c \in Cfgs : PrintT(<<"JUNK", n, c, SetToSeq(JunkOf(c, n))>>)
 ====
